@@ -59,6 +59,11 @@ func stripTypeArgs(s string) string {
 
 func (x *Exec) contractFor(fn *ssa.Function) *Contract {
 	pkg, key := contractKey(fn)
+	if x.contract != nil {
+		if c := x.w.findContract(pkg, key+" in "+strings.TrimSuffix(x.contract.Key, "!impl")); c != nil {
+			return c
+		}
+	}
 	return x.w.findContract(pkg, key)
 }
 
@@ -353,6 +358,9 @@ func (x *Exec) applyContract(st *State, fi int, ct *Contract, callee *ssa.Functi
 			recvName = callee.Params[0].Name()
 		}
 		names = append([]string{recvName}, names...)
+		if ct.RecvName != "" {
+			env.vars[ct.RecvName] = args[0]
+		}
 	}
 	var escaped []*Cell
 	for i, a := range args {
